@@ -68,6 +68,22 @@ func Catalogue(prop, tier string) []Cfg {
 			add(pc("s2", []uint{2, 1}, 3, "rate", []int{0, 2}, []int{2}, "", ""))
 			add(pc("v1", []uint{3, 2, 1}, 3, "fair", []int{2}, []int{2}, "rr", "preclosed"))
 			add(pc("s1", []uint{2, 1}, 2, "fair", []int{2}, []int{2}, "", ""))
+			// larger systems, iterative preemption bounding (0, 1, 2, 3)
+			for b := 0; b <= 3; b++ {
+				for _, c := range []Cfg{
+					pc("v2", []uint{3, 2, 1}, 6, "rate", []int{3}, []int{3, 2, 1}, "rr", ""),
+					pc("v2", []uint{70, 20, 10}, 10, "rate", []int{8, 3, 2}, []int{8, 3, 2}, "rr", "preclosed"),
+					pc("v2", []uint{7, 5, 3, 2}, 5, "rate", []int{0, 1, 2, 1}, []int{2, 1, 2, 1}, "rr", ""),
+					pc("v2", []uint{3, 2, 1}, 3, "fair", []int{3}, []int{3}, "pool", "extra"),
+					pc("s2", []uint{3, 2, 1}, 3, "fair", []int{2}, []int{2, 1, 1}, "", ""),
+					pc("v1", []uint{3, 2, 1}, 4, "rate", []int{2}, []int{2}, "pool", ""),
+					pc("s1", []uint{3, 2, 1}, 3, "fair", []int{2}, []int{2, 1, 1}, "", ""),
+				} {
+					c.Bound = b
+					c.Graph = false
+					add(c)
+				}
+			}
 		}
 	}
 	scripts := func() {
@@ -221,19 +237,23 @@ func Catalogue(prop, tier string) []Cfg {
 	case "C17":
 		scripts()
 		for _, env := range []string{"rr"} {
-			c := pc("v1", []uint{2, 1}, 3, "fair", []int{2}, []int{2}, env, "")
+			n2, n21 := []int{1}, []int{1, 1}
+			if !quick {
+				n2, n21 = []int{2}, []int{2, 1}
+			}
+			c := pc("v1", []uint{2, 1}, 3, "fair", []int{2}, n2, env, "")
 			c.Script = 2
 			if !quick {
 				c.Script = 3
 			}
 			add(c)
-			c = pc("v1", []uint{2, 1}, 3, "rate", []int{2}, []int{2, 1}, env, "preclosed")
+			c = pc("v1", []uint{2, 1}, 3, "rate", []int{2}, n21, env, "preclosed")
 			c.Script = 3
 			if !quick {
 				c.Script = 4
 			}
 			add(c)
-			c = pc("v1", []uint{2, 1}, 3, "fair", []int{0, 2}, []int{2, 1}, env, "")
+			c = pc("v1", []uint{2, 1}, 3, "fair", []int{0, 2}, n21, env, "")
 			c.Script = 2
 			c.OutCap = 1
 			add(c)
@@ -340,6 +360,9 @@ func Catalogue(prop, tier string) []Cfg {
 			for _, q := range []uint64{1, 2, 3} {
 				for _, i := range []int64{2, 3} {
 					n := int(2*q + 1)
+					if quick && n > 5 {
+						n = 5 // the 7-element variants belong to the thorough tier
+					}
 					add(lc(q, i, 0, n, []int64{0, 1, i}, []int64{0, 1}, ""))
 					add(lc(q, i, int(q)+1, n, []int64{0, 3 * i}, []int64{0, i}, ""))
 					add(lc(q, i, 1, n, []int64{0, 1}, []int64{0, 1, i}, ""))
